@@ -185,54 +185,65 @@ impl Cajun {
             | Ok(path) => path,
             | Err(error) => return RefreshOutcome::Failed(error),
         };
-        let (revision, workspace) = {
-            let session = self.session.lock().await;
-            (session.revision(&path), session.workspace_revision())
-        };
-        // Fast path: an open document reuses its cached analysis while no open
-        // document has changed. Re-analyzing on every request would both waste
-        // the session's memoized queries and replace the project editors are
-        // reading.
-        if revision.is_some() {
-            let projects = self.projects.read().await;
-            if let Some(cached) = projects.get(&path)
-                && cached.revision == revision
-                && cached.workspace == workspace
-            {
-                return RefreshOutcome::Updated(path);
+        loop {
+            let (revision, workspace) = {
+                let session = self.session.lock().await;
+                (session.revision(&path), session.workspace_revision())
+            };
+            // Fast path: an open document reuses its cached analysis while no
+            // open document has changed. Re-analyzing on every request would
+            // both waste the session's memoized queries and replace the project
+            // editors are reading.
+            if revision.is_some() {
+                let projects = self.projects.read().await;
+                if let Some(cached) = projects.get(&path)
+                    && cached.revision == revision
+                    && cached.workspace == workspace
+                {
+                    return RefreshOutcome::Updated(path);
+                }
             }
-        }
-        let analysis_path = path.clone();
-        let snapshot = {
-            let session = self.session.lock().await;
-            session.compiler.snapshot()
-        };
-        let analysis = match tokio::task::spawn_blocking(move || {
-            AnalysisTask::run(move || {
-                ProjectState::load_from_session(&analysis_path, &snapshot, |update| {
-                    progress.report(update)
+            let analysis_path = path.clone();
+            let snapshot = {
+                let session = self.session.lock().await;
+                session.compiler.snapshot()
+            };
+            let progress = progress.clone();
+            let analysis = match tokio::task::spawn_blocking(move || {
+                AnalysisTask::run(move || {
+                    ProjectState::load_from_session(&analysis_path, &snapshot, |update| {
+                        progress.report(update)
+                    })
                 })
             })
-        })
-        .await
-        {
-            | Ok(analysis) => analysis,
-            | Err(error) => {
-                return self
-                    .commit_analysis(
-                        path,
-                        revision,
-                        workspace,
-                        Err(format!("analysis task failed: {error}")),
-                    )
-                    .await;
+            .await
+            {
+                | Ok(analysis) => analysis,
+                | Err(error) => {
+                    return self
+                        .commit_analysis(
+                            path,
+                            revision,
+                            workspace,
+                            Err(format!("analysis task failed: {error}")),
+                        )
+                        .await;
+                }
+            };
+            match analysis {
+                | AnalysisTask::Completed(project) => {
+                    return self.commit_analysis(path, revision, workspace, project).await;
+                }
+                | AnalysisTask::Cancelled => {
+                    // Every write to the session cancels the analyses in flight.
+                    // If it replaced this document, the notification that wrote
+                    // it analyses the new contents. If another document changed,
+                    // nobody else will: analyse this one again.
+                    if self.session.lock().await.revision(&path) != revision {
+                        return RefreshOutcome::Superseded;
+                    }
+                }
             }
-        };
-        match analysis {
-            | AnalysisTask::Completed(project) => {
-                self.commit_analysis(path, revision, workspace, project).await
-            }
-            | AnalysisTask::Cancelled => RefreshOutcome::Superseded,
         }
     }
 
@@ -273,7 +284,16 @@ impl Cajun {
                 .get(&path)
                 .map(|cached| cached.project.diagnostics(&path))
                 .unwrap_or_default(),
-            | RefreshOutcome::Superseded => Vec::new(),
+            | RefreshOutcome::Superseded => {
+                // The document has been replaced or closed since: the
+                // notification that did so publishes. Diagnostics of this
+                // analysis, or an empty list in their place, would describe
+                // contents the editor no longer shows, and may arrive last.
+                if let Some(progress) = progress {
+                    progress.finish().await;
+                }
+                return;
+            }
             | RefreshOutcome::Failed(message) => vec![Diagnostic {
                 range: Range::new(Position::new(0, 0), Position::new(0, 1)),
                 severity: Some(DiagnosticSeverity::ERROR),
